@@ -169,7 +169,7 @@ theorem step_eval_builtin_rel {ρ : Emb} {env env' : EId} (b : Builtin) (args : 
       exact MRel_pure (.yield (hacc.snoc ht))
   · mcont ts ts' hts
     mbind (checkDepth_rel _ _) with u u' hu
-    exact builtinCall2_rel hrec b (d + 1) hts
+    exact builtinCall3_rel hrec b (d + 1) hts
 
 theorem step_eval_unary_rel {ρ : Emb} {env env' : EId} (op : UnOp) (a : Expr) (tail : Bool) {tail' : Bool} (d : Nat) {d' : Nat}
     (he : RE ρ env env') (hd : RDep d d' := by rdep) :
@@ -190,14 +190,14 @@ theorem step_eval_binary_rel {ρ : Emb} {env env' : EId} (op : BinOp) (a b : Exp
   have generic : ∀ (op : BinOp), MRel ρ RVal
       (do let av ← rec (Task.eval a env false d)
           let bv ← rec (Task.eval b env false d)
-          binaryOp cfg rec op av bv d true)
+          binaryOp3 cfg rec op av bv d true)
       (do let av ← rec' (Task.eval a env' false d')
           let bv ← rec' (Task.eval b env' false d')
-          binaryOp cfg' rec' op av bv d' true) := by
+          binaryOp3 cfg' rec' op av bv d' true) := by
     intro op
     mbind (hrec _ _ _ (.eval a false d he)) with av av' hav
     mbind (hrec _ _ _ (.eval b false d he)) with bv bv' hbv
-    exact binaryOp_rel hrec op d true hav hbv
+    exact binaryOp3_rel hrec op d true hav hbv
   have cmp : ∀ (f : Float → Bool), MRel ρ RVal
       (do checkDepth cfg (d + 1)
           let av ← rec (Task.eval a env false (d + 1))
